@@ -188,6 +188,9 @@ func checkC01(p *Prog, r *Report) {
 	cmdDataSameField(p, r, "R13")
 	r.Rule("R15", "the command builders of the function-data object (read, reply, notify/write) are free of side effects: they assign no field of the object — a reply built once and kept is stale after the next data change")
 	c01PureBuilders(p, r, "R15")
+	hasBindingRule(p, r, "R16")
+	r.Rule("R17", "a result is sent whenever it is asked for: in the sender's result builder the transmission does not depend on the request's ackRequest (that element decides about success results only, and the callers decide that) — otherwise a rejected message without ackRequest gets no error result")
+	c01ResultUnconditional(p, ib, r, "R17")
 	r.Rule("R12", "a read is answered on a server and on a special feature and rejected on a client feature: truth table of the role tests in front of the Reply of the generic read handler over role ∈ {client, server, special}")
 	c01ReadRoleTable(p, ib, r, "R12")
 	r.Rule("R8", "the destination look-up decides 'exists' by equality of whole addresses: every hand-written element-wise comparison of two slices compares their lengths for equality (shared lint, C20-R6)")
@@ -717,4 +720,68 @@ func c01PureBuilders(p *Prog, r *Report, rule string) {
 		r.Check(rule, base+"|no-side-effect", len(bad) == 0, p.Pos(fn.Pos()), fmt.Sprintf("the builder assigns no field of the function-data object: %v", bad))
 	}
 	r.Floor(rule, "command builders", n, 3)
+}
+
+// c01ResultUnconditional: in the sender functions that build a result header, no condition mentions the request's
+// AckRequest element.
+func c01ResultUnconditional(p *Prog, ib *inbound, r *Report, rule string) {
+	n := 0
+	for _, fn := range p.RepoFns("spine") {
+		if !isSenderFn(ib, fn) || fn.Blocks == nil {
+			continue
+		}
+		// a builder of result headers: stores the constant classifier "result"
+		isResult := false
+		for _, b := range fn.Blocks {
+			for _, ins := range b.Instrs {
+				if st, ok := ins.(*ssa.Store); ok {
+					if fa, ok := st.Addr.(*ssa.FieldAddr); ok && fieldOfAddr(fa) != nil && fieldOfAddr(fa).Name() == "CmdClassifier" && isNamed(fa.X.Type(), "model", "HeaderType") {
+						for _, s := range p.Sources(st.Val, false) {
+							if k, isK := s.Val.(*ssa.Const); isK {
+								if cs, isS := constString(k); isS && cs == "result" {
+									isResult = true
+								}
+							}
+						}
+					}
+				}
+			}
+		}
+		if !isResult {
+			continue
+		}
+		n++
+		var bad []string
+		for _, b := range fn.Blocks {
+			if ifi, ok := b.Instrs[len(b.Instrs)-1].(*ssa.If); ok {
+				var walk func(v ssa.Value, d int) bool
+				walk = func(v ssa.Value, d int) bool {
+					if d > 5 || v == nil {
+						return false
+					}
+					if strings.Contains(Path(v), ".AckRequest") {
+						return true
+					}
+					switch x := v.(type) {
+					case *ssa.BinOp:
+						return walk(x.X, d+1) || walk(x.Y, d+1)
+					case *ssa.UnOp:
+						return walk(x.X, d+1)
+					case *ssa.Phi:
+						for _, e := range x.Edges {
+							if walk(e, d+1) {
+								return true
+							}
+						}
+					}
+					return false
+				}
+				if walk(ifi.Cond, 0) {
+					bad = append(bad, p.InstrPos(ifi))
+				}
+			}
+		}
+		r.Check(rule, FnName(fn)+"|not-conditional-on-ack", len(bad) == 0, p.Pos(fn.Pos()), fmt.Sprintf("conditions on the request's ackRequest in the result builder: %v", bad))
+	}
+	r.Floor(rule, "result builders", n, 1)
 }
